@@ -79,6 +79,8 @@ package dispatcher
 // One read-modify-write of a totals entry: exactly that key changes, by exactly the positive parts.
 //@ func (d *Dispatcher) updateDispatchedAmount(ctx, sourceID, destID, denom, newAmount) (err)
 //@   requires[inv]  d != nil
+//   stored totals decode to non-nil, non-negative integers (value codec of the collection)
+//@   requires[inv]  amtWF(d)
 //@   requires[base] sourceID != nil && destID != nil && !isnil(newAmount.Incoming) && !isnil(newAmount.Outgoing) && destID.ProtocolId >= 0
 //@   modifies amt_has, amt_val
 //@   letold k = quad4(sourceID.ProtocolId, sourceID.CounterpartyId, idstr(destID.ProtocolId, destID.CounterpartyId), denom)
